@@ -48,23 +48,23 @@ type Member struct {
 	crashed bool
 	sess    int
 
-	events      []*DEvent
-	unacked     map[int][]*DEvent // per vb, delivery order, not yet acked
-	lastAck     map[int]*DEvent
-	parkCh      chan struct{}
-	parked      *DEvent
-	parkNext    bool
-	nEvents     int
-	calls       int
-	mode        string
-	app         *fiber.App
-	scraping    bool
-	lateScrapes int
-	sd          servicediscovery.ServiceDiscovery
-	infoSent    bool
+	events        []*DEvent
+	unacked       map[int][]*DEvent // per vb, delivery order, not yet acked
+	lastAck       map[int]*DEvent
+	parkCh        chan struct{}
+	parked        *DEvent
+	parkNext      bool
+	nEvents       int
+	calls         int
+	mode          string
+	app           *fiber.App
+	scraping      bool
+	lateScrapes   int
+	sd            servicediscovery.ServiceDiscovery
+	infoSent      bool
 	notifInFlight int
 	notifCount    int
-	phase       string // open | closing | closed | opening (from the lifecycle callbacks)
+	phase         string // open | closing | closed | opening (from the lifecycle callbacks)
 }
 
 func (m *Member) tag(role string) string { return fmt.Sprintf("m%d%s", m.id, role) }
